@@ -70,6 +70,19 @@ def band(x, y):
     return T(deps(x) | deps(y))
 
 
+def _mask_form(bits):
+    """the single affine form g such that every non-constant bit of the word is g or its complement (at least two of them), else None"""
+    g = None; n = 0
+    for x in bits:
+        if x == 0 or x == 1: continue
+        if not is_form(x): return None
+        base = (x[0], 0)
+        if g is None: g = base
+        elif g != base: return None
+        n += 1
+    return g if n >= 2 else None
+
+
 def bor(x, y):
     if x == 1 or y == 1: return 1
     return bxor(bxor(x, y), band(x, y))
@@ -239,6 +252,12 @@ class Fork(Exception):
     def __init__(self, form): self.form = form
 
 
+class ForkValue(Exception):
+    """partition on a widened boolean / `cond ? K : 0` value that is about to be used arithmetically"""
+    def __init__(self, valref, zero_iff):
+        self.valref = valref; self.zi = zero_iff
+
+
 class ForkSelect(Exception):
     """partition on the (non-affine) condition of a select whose arms cannot be merged"""
     def __init__(self, cond): self.cond = cond
@@ -299,7 +318,7 @@ class Interp:
             if name not in self._gimg:
                 cells = []
                 self._flatten(g['init'], cells)
-                if g['ty'] == '%struct.polyseed_dependency':
+                if g['ty'] == '%struct.polyseed_dependency' and not g.get('constant'):
                     # harness precondition (documented): polyseed_inject has been called - every table entry is a non-NULL function
                     for off, (fld, sz) in self.P.dep_fields.items():
                         for k in range(8): cells[off + k] = ('ptr', Ptr('f:injected_' + fld, 0), k)
@@ -474,6 +493,13 @@ class Interp:
                 return BV([T(0)] * w)
             raise Unmodelled('arithmetic %s on pointer at %s' % (op, inst.loc))
         A, B = a.bits, b.bits
+        if op in ('and', 'or', 'mul'):
+            # branch-free selection `(p & ~m) | (q & m)` with m = 0 - cond: a word all of whose symbolic bits are one form (or its complement) is a mask;
+            # combining it with another symbolic word partitions on that form (the arms are merged again exactly at the function's return)
+            for M_, O_ in ((A, B), (B, A)):
+                g = _mask_form(M_)
+                if g is not None and not (g[0] & self.nofork) and any(is_form(x) or is_top(x) for x in O_):
+                    raise Fork(g)
         if op == 'and': return BV([band(x, y) for x, y in zip(A, B)])
         if op == 'or': return BV([bor(x, y) for x, y in zip(A, B)])
         if op == 'xor': return BV([bxor(x, y) for x, y in zip(A, B)])
@@ -682,11 +708,28 @@ class Interp:
                     return self.fork(f, frame, bb, prev, k, st, depth, fk.form)
                 except ForkSelect as fs:
                     return self.fork_select(f, frame, bb, prev, k, st, depth, fs.cond, i)
+                except ForkValue as fv:
+                    return self.fork_value(f, frame, bb, prev, k, st, depth, fv.valref, fv.zi, i)
                 if r is None:
                     k += 1; continue
                 kind = r[0]
                 if kind == 'ret':
-                    return [Outcome(st, r[1])]
+                    rv = r[1]
+                    if isinstance(rv, BV) and rv.concrete() is None and rv.zero_iff is not None and rv.zero_iff[0] == 'cond' and len(rv.zero_iff) == 4:
+                        # `return cond ? K : 0` with a structured condition that was never branched on: two partitions with concrete results
+                        _, (_, zbits, zneg), K, wd = rv.zero_iff
+                        outs = []
+                        for zero_arm in (True, False):
+                            s2 = st.clone(); ok = True
+                            holds_allzero = (zero_arm == zneg)       # the structured condition says when the value is NON-zero: iff allzero(zbits) == (not zneg)
+                            if holds_allzero:
+                                for b_ in zbits:
+                                    if is_form(b_) or is_const(b_):
+                                        if not s2.cons.add(b_, 0): ok = False
+                            s2.cons.opaque.append(('%s:%s' % (i.loc, 'allzero' if holds_allzero else 'not-allzero'), [self.V.show(b_) for b_ in zbits][:12]))
+                            if ok: outs.append(Outcome(s2, BV.const(0 if zero_arm else K, wd)))
+                        return outs
+                    return [Outcome(st, rv)]
                 if kind == 'abort':
                     self.aborts.append((i.loc, list(st.cons.opaque)[-2:]))
                     return []
@@ -836,6 +879,11 @@ class Interp:
                 v = i.ops[0]
             elif i.op == 'icmp' and i.d['pred'] in ('ne', 'eq') and i.ops[1].get('k') == 'c' and i.ops[1]['v'] == 0:
                 src = regs.get(i.ops[0]['id']) if i.ops[0]['k'] == 'i' else None
+                if isinstance(src, BV) and src.concrete() is None and src.zero_iff is not None and src.zero_iff[0] == 'cond' and len(src.zero_iff) >= 4:
+                    # `status = cond ? K : 0` compared with 0: in this partition the status register itself is known
+                    nonzero = (val == 1) == (i.d['pred'] == 'ne')
+                    regs[i.ops[0]['id']] = BV.const(src.zero_iff[2] if nonzero else 0, src.w)
+                    break
                 if not (isinstance(src, BV) and all(x == 0 for x in src.bits[1:])): break      # only 0/1-valued sources
                 if i.d['pred'] == 'eq': val = 1 - val
                 v = i.ops[0]
@@ -844,6 +892,28 @@ class Interp:
             else:
                 break
             n += 1
+
+    def fork_value(self, f, frame, bb, prev, k, st, depth, valref, zi, inst):
+        """the register valref holds 0 or a known non-zero constant depending on a structured condition: re-execute instruction k in both partitions with the register concrete"""
+        self.nforks += 1
+        outs = []
+        _, (_, bits, negate) = zi[0], zi[1]
+        K = zi[2] if len(zi) >= 4 else 1
+        cur = frame['regs'][valref['id']]
+        for nonzero in (False, True):
+            s2 = st.clone(); ok = True
+            holds_allzero = ((not negate) if nonzero else negate)
+            if holds_allzero:
+                for b in bits:
+                    if is_form(b) or is_const(b):
+                        if not s2.cons.add(b, 0): ok = False
+            s2.cons.opaque.append(('%s:value-%s' % (inst.loc, 'allzero' if holds_allzero else 'not-allzero'), [self.V.show(b) for b in bits][:12]))
+            if not ok: continue
+            fr2 = {'f': f, 'regs': dict(frame['regs']), 'args': frame['args'], 'allocas': frame['allocas']}
+            fr2['regs'][valref['id']] = BV.const(K if nonzero else 0, cur.w)
+            outs += self.run_from(f, fr2, bb, prev, k, s2, depth)
+            if len(outs) > self.budget: raise Unmodelled('partition budget exceeded')
+        return outs
 
     def fork_select(self, f, frame, bb, prev, k, st, depth, cond, inst):
         """re-execute the select at position k with its condition forced to 0 and to 1, refining the state like a branch would"""
@@ -986,6 +1056,11 @@ class Interp:
             regs[i.id] = r
         elif op in ('add', 'sub', 'mul', 'udiv', 'urem', 'sdiv', 'srem', 'and', 'or', 'xor', 'shl', 'lshr', 'ashr'):
             a = V(0); b = V(1)
+            if op in ('add', 'sub', 'mul') and i.d['bits'] > 1:
+                for k_, x in enumerate((a, b)):
+                    if isinstance(x, BV) and x.concrete() is None and x.zero_iff is not None and x.zero_iff[0] == 'cond' and i.ops[k_]['k'] == 'i' \
+                            and all(is_const(y) or is_top(y) for y in x.bits):
+                        raise ForkValue(i.ops[k_], x.zero_iff)
             r = self.binop(st, op, a, b, i)
             if op == 'or' and isinstance(a, BV) and isinstance(b, BV) and any(is_top(x) for x in r.bits):
                 # (a | b) == 0  iff  a == 0 and b == 0: remember the bits whose vanishing makes the value zero (OR-accumulated comparisons)
@@ -1009,6 +1084,11 @@ class Interp:
                         and i.d['pred'] in ('eq', 'ne'):
                     _, bits, negate = x.zero_iff[1]
                     r = BV([T(0)]); r.zero_iff = ('allzero', bits, negate if i.d['pred'] == 'ne' else not negate)
+            if r is None:
+                for k_, (x, y) in enumerate(((a, b), (b, a))):
+                    if isinstance(x, BV) and isinstance(y, BV) and y.concrete() not in (None, 0) and x.concrete() is None and x.zero_iff is not None and x.zero_iff[0] == 'cond' \
+                            and i.ops[k_]['k'] == 'i' and all(is_const(z) or is_top(z) for z in x.bits):
+                        raise ForkValue(i.ops[k_], x.zero_iff)
             regs[i.id] = r if r is not None else self.icmp(st, i, a, b)
         elif op == 'select':
             c = V(0); a = V(1); b = V(2)
@@ -1031,7 +1111,7 @@ class Interp:
                 dd = deps(cb)
                 r = BV([x if x == y else T(dd) for x, y in zip(a.bits, b.bits)])
                 zi = c.zero_iff
-                r.zero_iff = ('cond', zi if b.concrete() == 0 else ('allzero', zi[1], not zi[2]))
+                r.zero_iff = ('cond', zi if b.concrete() == 0 else ('allzero', zi[1], not zi[2]), a.concrete() if b.concrete() == 0 else b.concrete(), len(a.bits))
                 regs[i.id] = r
             elif isinstance(a, BV) and isinstance(b, BV) and is_top(cb) and c.zero_iff and c.zero_iff[0] == 'allzero' and self._select_same(c.zero_iff, a, b) is not None:
                 # x != 0 ? x : 0 and the like: both operands agree whenever the condition picks the constant side
